@@ -71,9 +71,6 @@ class World(object):
         self.roots = {}       # id -> (parent, previous, next) of a skeleton node of the document
         if attached:
             self.doc = OpenDocumentText()
-            # a style that no op ever touches keeps the style index non-empty (an empty index makes
-            # getStyleByName rebuild the element index - a C09 matter that would blur this check)
-            self.doc.automaticstyles.addElement(style.Style(name=u'Fixed', family=u'paragraph'))
 
     # ------------------------------------------------------------------ ids
     def reg(self, i, node):
